@@ -135,7 +135,7 @@ claim(
     "C13",
     "All 101 registered codemods: every change effect of every transformer class (71 classes plus driven helper visitors) is reached only under "
     "the line filter (role-based gate analysis); the filter's argument is a position at every call site; file_line_patterns and match_files use "
-    "the same path base; the duplicated filter implementation is AST-equal to the shared one; positions are never requested for rebuilt nodes; "
+    "the same path base; every implementation of the line filter computes the same truth table (exclude-first / include / default true); positions are never requested for rebuilt nodes; "
     "line_include/line_exclude arguments bind to parameters of the same role.",
     "fnmatch semantics of pattern spellings and multi-line constructs are not claimed; 18 known findings (6 transformers without line gate) are listed.",
     "role-based must-dataflow of gate facts over all hooks + sibling AST comparison + argument provenance",
@@ -158,7 +158,7 @@ claim(
     "source — every hand-built string-literal token is classified (constant / same-literal quote / foreign text in a fixed quote needs a guard), "
     "filtered import-alias lists reset the tail comma, the operator slot of rebuilt comparisons receives an operator, and every constant code "
     "template handed to parse_expression/parse_statement/NewArg/update_call_target parses.",
-    "Necessary conditions only (breaking any of them yields unparseable output for some input); 1 known finding (lazy-logging quoting).",
+    "Necessary conditions only (breaking any of them yields unparseable output for some input); the lazy-logging quoting defect was repaired (fixed entry).",
     "provenance classification of leaf-token constructions + template evaluation and parsing + slot typing",
     "DESIGN.md 5/C01",
 )
